@@ -396,6 +396,47 @@ class FakePoller:
         return [(self.sock, 1)] if self.sock.frames is not None else []
 
 
+class _FakeZmq:
+    """Stands in for the `zmq` module while the real `Listener.__init__` runs, so that every attribute the constructor sets
+    (today `acked`; tomorrow whatever a refactor adds) exists on the object the check drives."""
+    def __init__(self, sock):
+        self._sock = sock
+
+    def Poller(self):
+        return _RegPoller(self._sock)
+
+    def __getattr__(self, name):
+        import zmq
+        return getattr(zmq, name)
+
+
+class _RegPoller(FakePoller):
+    def register(self, socket, flags=0):
+        pass
+
+
+class _FakeCtx:
+    def __init__(self, sock):
+        self._sock = sock
+
+    def socket(self, kind):
+        return self._sock
+
+
+def fake_listener(comms):
+    """A real Listener, built by its real constructor, on an in-memory socket."""
+    sock = FakeSock()
+    sock.bind = lambda address: None
+    saved = (comms.zmq, comms.get_context)
+    comms.zmq, comms.get_context = _FakeZmq(sock), (lambda: _FakeCtx(sock))
+    try:
+        lst = comms.Listener("fake")
+    finally:
+        comms.zmq, comms.get_context = saved
+    lst.socket, lst.poller = sock, FakePoller(sock)
+    return lst, sock
+
+
 def run_msg(spec, col: Collector):
     import pickle
     import cascade.executor.comms as comms
@@ -407,12 +448,7 @@ def run_msg(spec, col: Collector):
     real_callback = comms.callback
     comms.callback = lambda address, m: acks.append((address, m))
     try:
-        lst = object.__new__(comms.Listener)
-        lst.address = "fake"
-        sock = FakeSock()
-        lst.socket = sock
-        lst.poller = FakePoller(sock)
-        lst.acked = set()
+        lst, sock = fake_listener(comms)
         syn_idx = 0
         for i in range(spec["n"]):
             if col.out_of_time():
